@@ -1193,7 +1193,7 @@ def run_impl(case):
             if setup_stage and res == "ValueError":
                 res = "SetupError"
         snap = _snapshot(objs, world)
-        if kind in ("reload", "pickle", "deepcopy", "connect") and res not in ("ok", "skip") and snap == prev:
+        if kind in ("reload", "pickle", "deepcopy", "connect", "copy") and res not in ("ok", "skip") and snap == prev:
             # storage refused (e.g. a non-child that the user put among the starting nodes cannot be saved): not an
             # ownership operation at all
             res = "skip"
